@@ -14,10 +14,15 @@ open Ecal.Gen.C08
 def infixOps : List (String × Nat) :=
   (astNodeMap.filter fun e => e.2.2.2.2 = "ldInfix").map fun e => (e.2.1, e.2.2.1)
 
-/-- prefix operators as the printer sees them: null denotation `ndPrefix`, binding > 0, and (a left
-    denotation or the name `not`) — (node name, binding, has left denotation) -/
+/-- keywords that ppIsOperator regards as prefix operators although they have no left denotation -/
+def prefixKeywords : List String := ["not", "let", "kindmatch", "scopematch", "statematch", "priority", "suppresses"]
+
+/-- prefix operators as the printer sees them (ppIsOperator): null denotation `ndPrefix` and either an
+    operator token (binding > 0 and a left denotation: + -) or one of the keywords —
+    (node name, binding, has left denotation) -/
 def prefixOps : List (String × Nat × Bool) :=
-  (astNodeMap.filter fun e => e.2.2.2.1 = "ndPrefix" && decide (e.2.2.1 > 0) && (e.2.2.2.2 != "nil" || e.2.1 = "not")).map
+  (astNodeMap.filter fun e => e.2.2.2.1 = "ndPrefix" &&
+      ((decide (e.2.2.1 > 0) && e.2.2.2.2 != "nil") || prefixKeywords.contains e.2.1)).map
     fun e => (e.2.1, e.2.2.1, e.2.2.2.2 != "nil")
 
 def infixIdx (name : String) : Option Nat :=
